@@ -265,10 +265,23 @@ func (ti *typeInfo) setValue(typ reflect.Type) {
 		ti.value = ti.Constant.int64()
 	case reflect.Uint, reflect.Uint8, reflect.Uint16, reflect.Uint32, reflect.Uint64, reflect.Uintptr:
 		ti.value = int64(int(ti.Constant.uint64()))
-	case reflect.Float32, reflect.Float64:
+	case reflect.Float32:
+		// Round directly to float32 to avoid a double rounding.
+		if c, err := ti.Constant.representedBy(ti.valueType); err == nil {
+			ti.value = c.float64()
+		} else {
+			ti.value = ti.Constant.float64()
+		}
+	case reflect.Float64:
 		ti.value = ti.Constant.float64()
 	case reflect.Complex64, reflect.Complex128:
 		c := ti.Constant.complex128()
+		if ti.valueType.Kind() == reflect.Complex64 {
+			// Round directly to float32 to avoid a double rounding.
+			if c64, err := ti.Constant.representedBy(ti.valueType); err == nil {
+				c = c64.complex128()
+			}
+		}
 		switch ti.valueType {
 		case complex64Type:
 			ti.value = complex64(c)
